@@ -280,10 +280,12 @@ Definition is_ko (k : kind) : bool := match k with KO => true | _ => false end.
 Definition row_kind (ks : list kind) : kind :=
   match ks with [] => KF | k :: t => fold_left kind_join t k end.
 
-(* dtype of `out` (type_blocks.py:878-888): is it bool? *)
-Definition out_is_bool (fl : flags) (rk : kind) : bool :=
+(* dtype of `out` (type_blocks.py:878-899): is it bool?  With no `dtypes` it is the row dtype, except that the
+   sum over an all-bool frame is counted into the default integer dtype (`dtype == DTYPE_BOOL and ufunc is np.sum`) *)
+Definition is_sum (f : rfunc) : bool := match f with Fsum => true | _ => false end.
+Definition out_is_bool (fl : flags) (rk : kind) (f : rfunc) : bool :=
   match fl_dtypes fl with
-  | DsEmpty => match rk with KB => true | _ => false end
+  | DsEmpty => match rk with KB => negb (is_sum f) | _ => false end
   | DsBool => true
   | DsInexact | DsFloat => false
   end.
@@ -334,11 +336,11 @@ Definition M_multi (tbl : rfunc -> flags) (f : rfunc) (axis : Z) (skipna : bool)
   let fl := tbl f in
   let red := S_line f skipna ddof in
   let rk := row_kind (frame_kinds bs) in
-  let store := if out_is_bool fl rk then store_bool else (fun o => o) in
+  let store := if out_is_bool fl rk f then store_bool else (fun o => o) in
   if axis =? 0 then
     if shortcut0 fl skipna bs then
       (* out[pos] = b, b an array of size 1: a bool `out` takes its truth value, a numeric one raises *)
-      if out_is_bool fl rk then
+      if out_is_bool fl rk f then
         res_all (flat_map (fun b : vblk =>
                    match blk_single (vblk_cells b) with
                    | Some x => [store_bool (Ok (match x with Some q => ONum q | None => ONaN end))]
@@ -410,12 +412,10 @@ Definition m_faithful (tbl : rfunc -> flags) (f : rfunc) (axis : Z) (skipna : bo
   negb (multi bs && (axis =? 0) && shortcut0 (tbl f) skipna bs && out_is_obj (tbl f) rk) &&
   negb ((r =? 0)%nat && is_logical f && negb (is_nil bs)).
 
-(* where M meets S *)
+(* where M meets S: at least one column, and the size_one_unity shortcut of axis 0 not taken *)
 Definition dom (tbl : rfunc -> flags) (f : rfunc) (axis : Z) (skipna : bool) (r : nat) (bs : list vblk) : bool :=
   negb (is_nil bs) &&
-  negb (multi bs && (axis =? 0) && shortcut0 (tbl f) skipna bs) &&
-  negb (multi bs && (axis =? 0) && out_is_bool (tbl f) (row_kind (frame_kinds bs)) &&
-        (match f with Fsum => true | _ => false end)).
+  negb (multi bs && (axis =? 0) && shortcut0 (tbl f) skipna bs).
 
 (* ------------------------------------------------------------------ comparing with what was observed *)
 Definition two40 : Q := (1099511627776 # 1).
